@@ -334,7 +334,7 @@ class Rewriter:
         t = self._methods(t)
         # references: &r -> r ; r.x -> r->x
         for r in sorted(self.refs, key=len, reverse=True):
-            t = self._sub('ref', r'(?<![\w&])&\s*' + re.escape(r) + r'\b(?!\s*\()', r, t)
+            t = self._sub('ref', r'(?<![\w&])&\s*' + re.escape(r) + r'\b(?!\s*(?:\(|\.|->))', r, t)
             t = self._sub('ref', r'\b' + re.escape(r) + r'\s*\.(?=\s*[A-Za-z_])', r + '->', t)
         t = self._sub('this', r'\*\s*this\b', 'self', t)
         # an object passed by reference: `f(*p)` -> `f(p)` (references are pointers in the generated C)
@@ -444,3 +444,31 @@ def attach_loop_contracts(name, c_text, clauses):
         last = at
     res.append(c_text[last:])
     return ''.join(res)
+
+
+def expand_lock(name, text, mutex='self->_m', lockvar='lock'):
+    """Mechanical expansion of an RAII lock object declared at the top level of a function body:
+
+        std::unique_lock lock{_m}; / std::lock_guard lock{_m};  ->  MON_LOCK(&M); int lock_held = 1;
+        lock.unlock(); / lock.lock();                           ->  MON_UNLOCK / MON_LOCK + flag
+        return [e];                                             ->  release if held, then return
+        end of body                                             ->  release if held
+    `std::move(lock)` handed to a callee transfers the duty to unlock: the recipe rewrites that call itself
+    (callee contract: requires held, ensures released) and this function clears the flag after it."""
+    L = re.escape(lockvar)
+    decl = re.compile(r'std::(?:unique_lock|lock_guard)(?:<[^>]*>)?\s+' + L + r'\s*\{\s*(\w+)\s*\}\s*;')
+    m = decl.search(text)
+    if not m:
+        raise ExtractionBreak('%s: no RAII lock declaration `%s`' % (name, lockvar))
+    text = text[:m.start()] + 'MON_LOCK(&%s); int %s_held = 1;' % (mutex, lockvar) + text[m.end():]
+    text = re.sub(L + r'\s*\.\s*unlock\s*\(\s*\)\s*;', '{ MON_UNLOCK(&%s); %s_held = 0; }' % (mutex, lockvar), text)
+    text = re.sub(L + r'\s*\.\s*lock\s*\(\s*\)\s*;', '{ MON_LOCK(&%s); %s_held = 1; }' % (mutex, lockvar), text)
+    # calls that take the lock by move: f(std::move(lock))  ->  f_locked(...) ; flag cleared
+    text = re.sub(r'\breturn\s+(\w+)\s*\(\s*std::move\(\s*' + L + r'\s*\)\s*\)\s*;', r'{ \1_locked(self); %s_held = 0; return; }' % lockvar, text)
+    text = re.sub(r'(?<![\w.>])(\w+)\s*\(\s*std::move\(\s*' + L + r'\s*\)\s*\)\s*;', r'{ \1_locked(self); %s_held = 0; }' % lockvar, text)
+    text = re.sub(r'\breturn\s*;', '{ if (%s_held) MON_UNLOCK(&%s); return; }' % (lockvar, mutex), text)
+    text = re.sub(r'\breturn\s+([^;{}]+);', r'{ __auto_type vf_ret = (\1); if (%s_held) MON_UNLOCK(&%s); return vf_ret; }' % (lockvar, mutex), text)
+    # the two rewrites above must not touch the `return;` we generated for moved locks
+    text = text.replace('%s_held = 0; { if (%s_held) MON_UNLOCK(&%s); return; } }' % (lockvar, lockvar, mutex), '%s_held = 0; return; }' % lockvar)
+    text = text + '\n  if (%s_held) MON_UNLOCK(&%s);\n' % (lockvar, mutex)
+    return text
